@@ -23,6 +23,39 @@ EXPLANATION = (
 ASSUMPTIONS = ["CPython ast parser", "absint.py / bitprov.py transfer functions", "the Yacht Devices and Actisense gateways prepend a time token (and a direction token) on receive",
                "database Length of single-frame definitions <= 8", "str.split / int(x,16) / bytes.fromhex semantics on well-formed hex tokens"]
 
+def actisense_composition(chk, program, lengths, rule):
+    """encode_actisense on a message with symbolic PGN / source / destination / priority and a symbolic payload, then the text (behind the
+    timestamp token the gateway prepends) through decode_actisense_string: what reaches _decode must be those symbols, bit for bit"""
+    for L in lengths:
+        payload = W.frame_bytes(L, 'payload')
+        try:
+            res, rec = W.encode_with(program, 'encode_actisense', [payload], payload=payload)
+        except (A.Unknown, A.RaiseSignal) as u:
+            chk.unknown(rule, f"encode_actisense@L={L}", str(u), ENC, 0); return
+        if not isinstance(res, A.AStr):
+            chk.unknown(rule, f"encode_actisense@L={L}", 'result is not text', ENC, 0); return
+        it = A.Interp()
+        toks = it.tokens(res).items
+        shape = [t.pieces[0][0] if len(t.pieces) == 1 else 'mixed' for t in toks]
+        chk.check(shape == ['hexint', 'hexint', 'hexbytes'], rule, f"actisense::tokens@L={L}", file=ENC, line=program.fn('encoder', 'NMEA2000Encoder.encode_actisense').lineno,
+                  func='encode_actisense', expected=['header hex', 'PGN hex', 'payload hex'], found=shape)
+        line = A.AStr([('lit', 'A000123.456 ')] + list(res.pieces))
+        try:
+            r = W.decode_with(program, 'decode_actisense_string', line)
+        except A.Unknown as u:
+            chk.unknown(rule, f"decode_actisense_string@L={L}", str(u), DEC, 0); return
+        a = r.decode_args
+        if a is None:
+            chk.violation(rule, f"actisense::accepted@L={L}", file=DEC, line=0, expected='reader reaches _decode', found=r.warnings)
+            continue
+        exp = {'pgn': [('pgn', k) for k in range(18)], 'priority': [('prio', k) for k in range(3)], 'source': [('src', k) for k in range(8)], 'destination': [('dst', k) for k in range(8)]}
+        got = {'pgn': a[0], 'priority': a[1], 'source': a[2], 'destination': a[3]}
+        for role in exp:
+            chk.check(W.int_matches(got[role], exp[role]), rule, f"actisense::{role}@L={L}", file=DEC, line=0, expected=B.show_vec(exp[role]), found=repr(got[role]))
+        data = a[5]
+        chk.check(isinstance(data, A.ABytes) and data.items == list(reversed(payload.items)), rule, f"actisense::payload@L={L}", file=DEC, line=0,
+                  expected='payload bytes (reversed for the shared decode path)', found=f"{len(data.items) if isinstance(data, A.ABytes) else data!r} bytes")
+
 def feasible_lengths(program):
     db = program.db
     out = {}
@@ -94,10 +127,14 @@ def run(chk, program, tier):
             cs = W.checksum_summary(program)
             last_is_cs = pk.items[19] == A.norm_byte([('csum', k) for k in range(8)])
             arg = rec.checksum_args[0] if rec.checksum_args else None
-            ok_cs = last_is_cs and isinstance(arg, A.ABytes) and arg.items == pk.items[:19] and cs['lo'] == 2 and cs['hi'] == 19 and cs['mask'] == 0xff and cs['plain_sum']
-            chk.check(ok_cs, 'WF-CSUM', f"usb::checksum@n={n}", file='nmea2000/utils.py', line=cs['line'], func='calculate_canbus_checksum',
-                      expected={'position': 19, 'over': 'sum(bytes[2:19]) & 0xff of the 19 preceding bytes'},
-                      found={'last_byte_is_checksum': last_is_cs, 'slice': [cs['lo'], cs['hi']], 'mask': cs['mask'], 'plain_sum': cs['plain_sum'], 'argument_len': len(arg) if isinstance(arg, A.ABytes) else None})
+            plain, plain_found = W.checksum_is_plain_sum_2_19(program)
+            if plain is None:
+                chk.unknown('WF-CSUM', f"usb::checksum@n={n}", f"calculate_canbus_checksum neither interpretable nor of the recognised shape: {plain_found}", 'nmea2000/utils.py', cs['line'])
+            else:
+                ok_cs = last_is_cs and isinstance(arg, A.ABytes) and arg.items == pk.items[:19] and plain
+                chk.check(ok_cs, 'WF-CSUM', f"usb::checksum@n={n}", file='nmea2000/utils.py', line=cs['line'], func='calculate_canbus_checksum',
+                          expected={'position': 19, 'over': '(sum of bytes 2..18) mod 256 of the 19 preceding bytes'},
+                          found={'last_byte_is_checksum': last_is_cs, 'function': plain_found, 'argument_len': len(arg) if isinstance(arg, A.ABytes) else None})
             try:
                 r = W.decode_with(program, 'decode_usb', pk)
             except A.Unknown as u:
@@ -131,35 +168,7 @@ def run(chk, program, tier):
                 chk.unknown('WF-LAYOUT', f"decode_yacht_devices_string@n={n}", str(u), DEC, 0); return
             _reader(chk, 'yacht_devices', n, r, rev)
     # ---------------- Actisense (whole payloads)
-    for L in (range(1, 224) if tier == 'thorough' else (1, 3, 8, 9, 30, 223)):
-        payload = W.frame_bytes(L, 'payload')
-        try:
-            res, rec = W.encode_with(program, 'encode_actisense', [payload], payload=payload)
-        except (A.Unknown, A.RaiseSignal) as u:
-            chk.unknown('WF-ACT', f"encode_actisense@L={L}", str(u), ENC, 0); return
-        if not isinstance(res, A.AStr):
-            chk.unknown('WF-ACT', f"encode_actisense@L={L}", 'result is not text', ENC, 0); return
-        it = A.Interp()
-        toks = it.tokens(res).items
-        shape = [t.pieces[0][0] if len(t.pieces) == 1 else 'mixed' for t in toks]
-        chk.check(shape == ['hexint', 'hexint', 'hexbytes'], 'WF-ACT', f"actisense::tokens@L={L}", file=ENC, line=program.fn('encoder', 'NMEA2000Encoder.encode_actisense').lineno,
-                  func='encode_actisense', expected=['header hex', 'PGN hex', 'payload hex'], found=shape)
-        line = A.AStr([('lit', 'A000123.456 ')] + list(res.pieces))
-        try:
-            r = W.decode_with(program, 'decode_actisense_string', line)
-        except A.Unknown as u:
-            chk.unknown('WF-ACT', f"decode_actisense_string@L={L}", str(u), DEC, 0); return
-        a = r.decode_args
-        if a is None:
-            chk.violation('WF-ACT', f"actisense::accepted@L={L}", file=DEC, line=0, expected='reader reaches _decode', found=r.warnings)
-            continue
-        exp = {'pgn': [('pgn', k) for k in range(18)], 'priority': [('prio', k) for k in range(3)], 'source': [('src', k) for k in range(8)], 'destination': [('dst', k) for k in range(8)]}
-        got = {'pgn': a[0], 'priority': a[1], 'source': a[2], 'destination': a[3]}
-        for role in exp:
-            chk.check(W.int_matches(got[role], exp[role]), 'WF-ACT', f"actisense::{role}@L={L}", file=DEC, line=0, expected=B.show_vec(exp[role]), found=repr(got[role]))
-        data = a[5]
-        chk.check(isinstance(data, A.ABytes) and data.items == list(reversed(payload.items)), 'WF-ACT', f"actisense::payload@L={L}", file=DEC, line=0,
-                  expected='payload bytes (reversed for the shared decode path)', found=f"{len(data.items) if isinstance(data, A.ABytes) else data!r} bytes")
+    actisense_composition(chk, program, range(1, 224) if tier == 'thorough' else (1, 3, 8, 9, 30, 223), 'WF-ACT')
     chk.floor('lengths', len(feas), 7)
     # the frames the fast-packet segmenter hands to the writers (C03 FP-LEN / FP-COUNT / FP-HDR on a reduced sweep: lengths 0..30 and the 7-multiples)
     from . import c03
